@@ -14,7 +14,7 @@ from .. import uscan
 STORAGE_CATS = {'storage-label': 'C18.R2', 'storage-compare': 'C18.R3', 'compare-units': 'C18.R3',
                 'config-compare': 'C18.R4', 'prefix-strip': 'C18.R1', 'from-storage': 'C18.R2', 'to-storage': 'C18.R2',
                 'store-volume': 'C18.R2', 'store-contents': 'C18.R2', 'std-format': 'C18.R2',
-                'round-stored-at-user-precision': 'C18.R3'}
+                'round-stored-at-user-precision': 'C18.R3', 'sum-mix': 'C18.R2'}
 OBSERVERS = ('Container.get_volume', 'Container.get_concentration')
 
 
